@@ -183,3 +183,170 @@ func runC11Axes(c *Ctx) {
 		}
 	}
 }
+
+// sliceGrowth follows a slice value back through appends: the value is its root (a
+// parameter, or whatever else it starts from) with at least g elements appended, and nothing
+// on the way re-slices it. Calls of repository functions count when every return of the
+// callee is, in the same sense, one of its own parameters grown.
+func sliceGrowth(v ssa.Value, depth int, seen map[ssa.Value]bool) (g int64, ok bool) {
+	if depth > 6 {
+		return 0, false
+	}
+	switch x := v.(type) {
+	case *ssa.Phi:
+		if seen[x] {
+			return 1 << 40, true // a cycle adds nothing to the minimum
+		}
+		seen[x] = true
+		defer delete(seen, x)
+		best := int64(1 << 40)
+		for _, e := range x.Edges {
+			ge, ok := sliceGrowth(e, depth, seen)
+			if !ok {
+				return 0, false
+			}
+			if ge < best {
+				best = ge
+			}
+		}
+		return best, true
+	case *ssa.Call:
+		if b, isB := x.Call.Value.(*ssa.Builtin); isB {
+			if b.Name() != "append" || len(x.Call.Args) != 2 {
+				return 0, false
+			}
+			n := int64(0)
+			if sl, isSl := x.Call.Args[1].(*ssa.Slice); isSl && sl.Low == nil && sl.High == nil {
+				if al, isAl := sl.X.(*ssa.Alloc); isAl {
+					if at, isArr := deref(al.Type()).Underlying().(*types.Array); isArr {
+						n = at.Len()
+					}
+				}
+			}
+			ga, ok := sliceGrowth(x.Call.Args[0], depth, seen)
+			if !ok {
+				return 0, false
+			}
+			return ga + n, true
+		}
+		cal := staticCallee(x)
+		if cal != nil && cal.Pkg != nil && cal.Pkg.Pkg.Path() == "strconv" && strings.HasPrefix(cal.Name(), "Append") && len(x.Call.Args) > 0 {
+			// strconv.AppendFloat & co.: documented to return dst extended
+			return sliceGrowth(x.Call.Args[0], depth, seen)
+		}
+		if cal == nil || cal.Blocks == nil {
+			return 0, false
+		}
+		// the callee hands one of its parameters back, grown
+		pj, gmin := -1, int64(1<<40)
+		for _, r := range returnsOf(cal) {
+			if len(r.Results) != 1 {
+				return 0, false
+			}
+			root, gr, ok := sliceGrowthRoot(r.Results[0], depth+1)
+			par, isPar := root.(*ssa.Parameter)
+			if !ok || !isPar {
+				return 0, false
+			}
+			j := paramIndex(cal, par)
+			if j < 0 || (pj >= 0 && pj != j) {
+				return 0, false
+			}
+			pj = j
+			if gr < gmin {
+				gmin = gr
+			}
+		}
+		if pj < 0 || pj >= len(x.Call.Args) {
+			return 0, false
+		}
+		ga, ok := sliceGrowth(x.Call.Args[pj], depth, seen)
+		if !ok {
+			return 0, false
+		}
+		return ga + gmin, true
+	case *ssa.Slice, *ssa.UnOp, *ssa.Extract, *ssa.Lookup, *ssa.MakeSlice:
+		_ = x
+		return 0, false
+	}
+	return 0, true // a root: parameter, constant nil, …
+}
+
+// sliceGrowthRoot: the single root all derivations of v start from, with the growth.
+func sliceGrowthRoot(v ssa.Value, depth int) (root ssa.Value, g int64, ok bool) {
+	g, ok = sliceGrowth(v, depth, map[ssa.Value]bool{})
+	if !ok {
+		return nil, 0, false
+	}
+	var roots []ssa.Value
+	seen := map[ssa.Value]bool{}
+	var walk func(v ssa.Value, d int)
+	walk = func(v ssa.Value, d int) {
+		if seen[v] || d > 12 {
+			return
+		}
+		seen[v] = true
+		switch x := v.(type) {
+		case *ssa.Phi:
+			for _, e := range x.Edges {
+				walk(e, d+1)
+			}
+		case *ssa.Call:
+			if b, isB := x.Call.Value.(*ssa.Builtin); isB && b.Name() == "append" {
+				walk(x.Call.Args[0], d+1)
+				return
+			}
+			if cal := staticCallee(x); cal != nil && cal.Pkg != nil && cal.Pkg.Pkg.Path() == "strconv" && strings.HasPrefix(cal.Name(), "Append") && len(x.Call.Args) > 0 {
+				walk(x.Call.Args[0], d+1)
+				return
+			}
+			if cal := staticCallee(x); cal != nil {
+				for _, r := range returnsOf(cal) {
+					if len(r.Results) == 1 {
+						if rt, _, ok := sliceGrowthRoot(r.Results[0], depth+1); ok {
+							if par, isPar := rt.(*ssa.Parameter); isPar {
+								if j := paramIndex(cal, par); j >= 0 && j < len(x.Call.Args) {
+									walk(x.Call.Args[j], d+1)
+									return
+								}
+							}
+						}
+					}
+				}
+			}
+			roots = append(roots, v)
+		default:
+			roots = append(roots, v)
+		}
+	}
+	walk(v, 0)
+	if len(roots) != 1 {
+		return nil, 0, false
+	}
+	return roots[0], g, true
+}
+
+// storeIntoOwnAppendedTail: the address is x[len(x)-k] where x is a root slice with at least
+// k elements appended by this very function (and its append-style helpers): the element
+// written is one the function itself appended, beyond what the caller can see of the slice
+// it passed in.
+func storeIntoOwnAppendedTail(addr ssa.Value) bool {
+	ia, ok := addr.(*ssa.IndexAddr)
+	if !ok {
+		return false
+	}
+	bo, ok := stripConv(ia.Index).(*ssa.BinOp)
+	if !ok || bo.Op != token.SUB {
+		return false
+	}
+	k, isC := constInt(bo.Y)
+	if !isC || k < 1 {
+		return false
+	}
+	ln, ok := lenOf(stripConv(bo.X))
+	if !ok || !(ln == ia.X || sameValue(ln, ia.X)) {
+		return false
+	}
+	g, ok := sliceGrowth(ia.X, 0, map[ssa.Value]bool{})
+	return ok && g >= k && g < 1<<39
+}
